@@ -3,6 +3,7 @@ C06 — the compiler never crashes or hangs.  (Theorems about the model's totali
 model grows; see DESIGN.md.)
 -/
 import Complgen.Model.Pipeline
+import Complgen.Proofs.NoCrash
 namespace Complgen.Props.C06
 open Complgen Complgen.Check
 
@@ -15,5 +16,13 @@ theorem validate_total (g : Grammar) (sh : Shell) :
   | ok v => exact .inl ⟨v, rfl⟩
   | err c s => exact .inr (.inl ⟨c, s, rfl⟩)
   | crash site => exact .inr (.inr ⟨site, rfl⟩)
+
+/-- the only crash site in the model of validation is the native stack of `check_subword_spaces`
+(modelled by a recursion budget): every other path — whatever the grammar tree — ends in a value or
+in a diagnosed error.  Together with the exact model/library correspondence on every mutated input
+of the run, a panic of the library's validation can only be that one. -/
+theorem validate_crash_only_stack (g : Grammar) (sh : Shell) (s : String) (h : validate g sh = .crash s) :
+    s = "check_subword_spaces: unbounded recursion through cyclic definitions" :=
+  Check.validate_crash_only_stack g sh s h
 
 end Complgen.Props.C06
